@@ -552,10 +552,14 @@ CLAIMED["C06"] = dict(
          "selectedcontent mirror): the document's children are comment* doctype? comment* html comment* with html present "
          "once EOF has been processed, no text node is a child of the document, no text node anywhere is empty, only "
          "elements / the document / template-contents fragments have children, template contents are fragments distinct "
-         "from the document. NOT proved: the html-children clause (head then body | frameset noframes*: false as stated, see "
-         "FINDING; its true core needs per-mode stack-shape invariants), 'only whitespace text under html', and that "
-         "remove_from_parent / reparent_children in the adoption agency and frameset-replaces-body never expose two text "
-         "siblings. That part is carried by (a) the "
+         "from the document; and (Props/C06Inv2.lean, stack-shape invariant per insertion mode through all 21 modes, foreign "
+         "content and every EOF arm) C06_html_children: after every completed parse the element children of html are head "
+         "followed by body, or head, frameset followed ONLY by noframes elements and formatting elements (the known finding: "
+         "these are exactly the entries still in the list of active formatting elements, C06_html_children_fmt_in_af; when "
+         "that list holds no element at the end the clause holds in full, C06_html_children_partial), and every text child "
+         "of html is white space. NOT proved: that remove_from_parent / reparent_children in the adoption agency and "
+         "frameset-replaces-body never expose two adjacent text siblings (the 'no adjacent text' clause is proved only across "
+         "non-detaching call sequences). That part is carried by (a) the "
          "oracle: Skeleton (document children comment* doctype? comment* html comment*; html's element children head then "
          "body | frameset noframes*; no empty text; no text under the document; only whitespace text under html; only "
          "elements/documents/template contents have children; no adjacent text siblings; parent pointers consistent; "
